@@ -1,10 +1,12 @@
 import Ucfg.Lemmas.Forest
+import Ucfg.Lemmas.ForestMerge
 /-!
   C11 — reads are pure.
 
   In the model a read is a function *of* the tree that returns no tree: purity is a matter of types, and the theorems
   below only make explicit what that means for the two places where the Go code could plausibly write while reading.
-  * a config used as a merge source is only copied from (`merge_source_only_read`, from C10's copy theorems);
+  * a config used as a merge source is only copied from (`merge_source_only_read` for one copy,
+    `whole_merge_only_reads_source` for Merge as a whole, from C10's frame theorem);
   * evaluating references threads the per-call cache and nothing else: the `EM` monad's state is `Cache`, the tree is
     an argument (opts.go: "nothing is cached on the value"), and C08's `cache_only_primitives` shows that what the
     cache holds are primitives, never a piece of the shared tree.
@@ -19,6 +21,14 @@ open Ucfg.Forest
 theorem merge_source_only_read (n : Nat) (h h' : Heap) (src id' : Id) (p : Option Id) (f : String)
     (he : Forest.cpy n h src p f = some (h', id')) : ∀ (i : Nat) (nd : Node), h[i]? = some nd → h'[i]? = some nd :=
   fun i nd hi => cpy_old_nodes he i nd hi
+
+/-- the same for Merge as a whole (Model/Forest.lean `mergeH`, every list policy): when the destination lies outside a
+set `S` of nodes that nothing else points into - the source's tree - every node of `S` is identical afterwards.  A
+config can be the source of any number of merges, NewFrom calls and Unpacks while others read it. -/
+theorem whole_merge_only_reads_source (S : Id → Prop) (n cf : Nat) (pol : ArrPol) (h h' : Heap) (to frm : Id)
+    (hS : ∀ i : Nat, S i → i < h.length) (hsep : Sep S h) (hto : ¬ S to)
+    (he : mergeH n cf pol h to frm = some h') : ∀ i, S i → h'[i]? = h[i]? :=
+  ((mclaims S h.length hS n).mh cf pol h h' to frm (Nat.le_refl _) hsep hto he).2.1.1
 
 end Ucfg.C11
 
